@@ -72,6 +72,13 @@ def build_for(spec, builder):
     if "shim" in spec.needs:
         objs.append(builder.harness_obj(os.path.join(VERIF, "harness", "common", "shim_core.cpp"), spec.variant,
                                         extra=["-DSHIM_PREFIX=sut_"]))
+    if "flat" in spec.needs or "shim" in spec.needs:
+        objs.append(builder.harness_obj(os.path.join(VERIF, "harness", "common", "flat_state.cpp"), spec.variant,
+                                        needs_repo_headers=False))
+    if "optable" in spec.needs:
+        o = builder.harness_obj(os.path.join(VERIF, "harness", "common", "optable.cpp"), spec.variant)
+        o.deps.append(builder.gen_recorder())
+        objs.append(o)
     if "sys" in spec.needs:
         objs.append(builder.harness_obj(os.path.join(VERIF, "harness", "common", "shim_sys.cpp"), spec.variant))
     if "lib" in spec.needs or "shim" in spec.needs or "sys" in spec.needs:
@@ -151,8 +158,8 @@ def run_check(spec, tier, seed, replay=None, verbose=False, workers_override=Non
     os.makedirs(rundir)
     faildir = os.path.join(FAIL_DIR, pid)
     env = dict(os.environ)
-    env["ASAN_OPTIONS"] = "detect_leaks=0:detect_stack_use_after_return=1:abort_on_error=0:allocator_may_return_null=1:handle_abort=1"
-    env["UBSAN_OPTIONS"] = "print_stacktrace=1:halt_on_error=1"
+    env["ASAN_OPTIONS"] = "detect_leaks=0:detect_stack_use_after_return=1:abort_on_error=0:allocator_may_return_null=1:handle_abort=1:exitcode=77"
+    env["UBSAN_OPTIONS"] = "print_stacktrace=1:halt_on_error=1:exitcode=77"
     env["TSAN_OPTIONS"] = "halt_on_error=0:second_deadlock_stack=1:exitcode=66"
     env["VERIF_REPO"] = REPO
     common = ["--tier", tier, "--faildir", faildir]
@@ -195,7 +202,7 @@ def run_check(spec, tier, seed, replay=None, verbose=False, workers_override=Non
                     r2 = os.path.join(rundir, f"confirm-{tag}-{i}.json")
                     l2 = os.path.join(rundir, f"confirm-{tag}-{i}.log")
                     rc2 = run_cmd([exe.out, "--report", r2, "--replay", path] + common, l2, 300, env)
-                    if rc2 not in (0, 1) or (os.path.exists(r2) and json.load(open(r2)).get("violations")):
+                    if rc2 not in (0, 1) or not os.path.exists(r2) or json.load(open(r2)).get("violations"):
                         confirmed += 1
             elif replay:
                 confirmed = 3
@@ -307,6 +314,9 @@ def run_check(spec, tier, seed, replay=None, verbose=False, workers_override=Non
             f.write("\n")
     for sig, (cnt, example) in sorted(known_hits.items()):
         print(f"KNOWN-FINDING: property={pid} key={sig} hits={cnt} {known.get(sig, '')}")
+    broken = [n for n in notes if "worker died" in n]
+    for n in broken:
+        print(f"ERROR property={pid} {n}")
     for sig, (why, path) in sorted(by_sig.items()):
         print(f"VIOLATION property={pid} replay={path}")
         first = why.strip().splitlines()[0] if why.strip() else ""
@@ -318,5 +328,13 @@ def run_check(spec, tier, seed, replay=None, verbose=False, workers_override=Non
     if verbose:
         for n in notes[:20]:
             print("  note:", n)
-    shutil.rmtree(rundir, ignore_errors=True)
-    return 1 if by_sig else 0
+    if by_sig or notes:
+        # keep logs of the most recent troubled run only
+        keep = os.path.join(RUN_ROOT, f"{pid}-last-troubled")
+        shutil.rmtree(keep, ignore_errors=True)
+        os.rename(rundir, keep)
+    else:
+        shutil.rmtree(rundir, ignore_errors=True)
+    if by_sig:
+        return 1
+    return 2 if broken else 0
